@@ -129,8 +129,11 @@ def run(tier):
             if t2["k"] != "switch":
                 continue
             e2 = cfg.expr_operand(ssk, t2["discr"], 6)
-            if e2[0] == "bin" and e2[1] == "Eq" and cfg.expr_fields(e2[2]) == ["flow_level"] and e2[3] == ("const", 0):
-                if cfg.dominated_by_edge(ssk, sb, b2, t2["otherwise"]):
+            if e2[0] == "bin" and e2[1] in ("Eq", "Ne", "Gt") and cfg.expr_fields(e2[2]) == ["flow_level"] and e2[3] == ("const", 0):
+                # the edge on which the level is zero: the true edge of `== 0`, the false edge of `!= 0` / `> 0`
+                m2, other2 = cfg.switch_edge_blocks(ssk, b2)
+                zero_edge = other2 if e2[1] == "Eq" else m2.get(0)
+                if zero_edge is not None and (sb == zero_edge or cfg.dominated_by_edge(ssk, sb, b2, zero_edge)):
                     g = True
         okf = okf and g
     rep.check(okf, "flow-keys-never-stale", "stale_simple_keys", "a candidate key inside a flow collection can be given up (or rejected) because of its length or line span: "
